@@ -173,6 +173,10 @@ func RandOpenBody(r *rand.Rand, localID, localAS, remoteAS uint32) []byte {
 		body = body[:r.IntN(len(body)+1)]
 	case 3:
 		body = randBytes(r, r.IntN(64))
+	case 4:
+		if r.IntN(3) == 0 { // padded to (nearly) the largest message: 4094..4096 octets on the wire
+			body = append(body, randBytes(r, wire.MaxBody-r.IntN(3)-len(body))...)
+		}
 	}
 	if len(body) > wire.MaxBody {
 		body = body[:wire.MaxBody]
